@@ -66,7 +66,7 @@ Section TpSim.
   Definition RT_tp (u : unit) (i : nat) (cur : tcur) (v : bval) (c : dcur) : Prop :=
     seg i (flat_val i v) /\ R_tp u cur c.
 
-  Notation AR := (act_rel (ops_tape cfg tokens) (ops_doc cfg) R_tp cur_done (fun _ _ => True)).
+  Notation AR := (act_rel (ops_tape cfg tokens) (ops_doc cfg) R_tp cur_done (fun _ _ => True) (fun (_ : hint) (a b : prim) => a = b)).
   Notation TR := (tok_rel R_tp RT_tp cur_done).
 
   Lemma visit_key_scalar i s l : seg i (ttok s :: l) -> tp_visit_key cfg tokens i = scalar_prim cfg s.
@@ -211,7 +211,7 @@ Section TpSim.
     apply sim_ok. cbn [fst snd]. split; [exact Hv|]. cbn [R_tp]. split; [exact Hs|]. split; [exact He|exact I].
   Qed.
 
-  Theorem tp_ops_sim : ops_sim (ops_tape cfg tokens) (ops_doc cfg) R_tp RT_tp cur_done (fun _ _ => True).
+  Theorem tp_ops_sim : ops_sim (c_fops cfg) (ops_tape cfg tokens) (ops_doc cfg) R_tp RT_tp cur_done (fun _ _ => True) (fun (_ : hint) (a b : prim) => a = b).
   Proof.
     constructor.
     - intros. apply tp_H_disp. assumption.
@@ -219,6 +219,9 @@ Section TpSim.
     - intros. apply tp_H_key; assumption.
     - intros. apply tp_H_val. assumption.
     - reflexivity.
+    - intros; subst; reflexivity.
+    - intros; subst; reflexivity.
+    - intros; subst; reflexivity.
   Qed.
 End TpSim.
 
@@ -228,7 +231,7 @@ Theorem tape_tokens_eq_spec_fuel cfg fuel sh fs g :
 Proof.
   unfold deser_tokens, spec_value.
   apply (walk_root_sim (c_fops cfg) (ops_tape cfg (flat_doc fs)) (ops_doc cfg) (R_tp (flat_doc fs)) (RT_tp (flat_doc fs))
-           cur_done (fun _ _ => True) (tp_ops_sim cfg (flat_doc fs)) fuel tt).
+           cur_done (fun _ _ => True) (fun (_ : hint) (a b : prim) => a = b) (tp_ops_sim cfg (flat_doc fs)) fuel tt).
   - exact I.
   - cbn [R_tp t_idx t_end]. split; [exists []; rewrite app_nil_r; reflexivity|]. split; [reflexivity|exact I].
 Qed.
